@@ -44,19 +44,30 @@ type Program struct {
 	Renames *Renames
 	// CanonicalFunc, when set, resolves "pkg.Name" / "pkg.Type.Method" through renames
 	FuncByID func(id string) *ssa.Function
+	// Skip: raw IDs of functions that are not analysed: helpers that do not exist in the reference
+	// tree, are unexported, and whose every call has been expanded in place (dead after expansion)
+	Skip map[string]bool
+	// RawID names a function as spelled in the current tree (set by the driver)
+	RawID func(*ssa.Function) string
+	// Notes of the preparation step (renames followed, helpers expanded)
+	Notes []string
 }
 
 // Load loads ./... in dir. Any load or type error is returned as an error: an analysis that could
 // not see the whole program must fail, never pass.
-func Load(dir string) (*Program, error) {
+func Load(dir string) (*Program, error) { return LoadOverlay(dir, nil) }
+
+// LoadOverlay is Load with some files replaced by the given contents (see reinline.go).
+func LoadOverlay(dir string, overlay map[string][]byte) (*Program, error) {
 	os.Unsetenv("GOWORK")
 	env := append(os.Environ(), "GOFLAGS=-mod=mod", "GOPROXY=off", "GOSUMDB=off",
 		"GOTOOLCHAIN=local", "GOWORK=off")
 	cfg := &packages.Config{
-		Mode:  packages.LoadAllSyntax,
-		Dir:   dir,
-		Env:   env,
-		Tests: false,
+		Mode:    packages.LoadAllSyntax,
+		Dir:     dir,
+		Env:     env,
+		Tests:   false,
+		Overlay: overlay,
 	}
 	pkgs, err := packages.Load(cfg, "./...")
 	if err != nil {
@@ -202,6 +213,15 @@ func (p *Program) OwnFunctions() []*ssa.Function {
 			continue
 		}
 		if strings.HasPrefix(pk.Pkg.Path(), RootPkg) && fn.Blocks != nil {
+			if len(p.Skip) > 0 && p.RawID != nil {
+				top := fn
+				for top.Parent() != nil {
+					top = top.Parent()
+				}
+				if p.Skip[p.RawID(top)] {
+					continue
+				}
+			}
 			out = append(out, fn)
 		}
 	}
